@@ -8,7 +8,9 @@ import exprio
 
 PROPS = "Props/C12.v"
 RULE = ("translator: every operator / then / cond / fold_* / count_true / alldifferent method body of BoolExpr, IntExpr and the four "
-        "array classes is read with `ast` into Gen/DunderTable.v (class, method, body shape with Op and operand order), fail-closed; "
+        "array classes is read with `ast` into Gen/DunderTable.v (class, method, body shape with Op and operand order), together with "
+        "the isinstance predicates _is_bool_like/_is_int_like/_is_bool_expr_like/_is_int_expr_like, the type-check chain of "
+        "_elementwise and the is_bool_op/is_int_op lists, fail-closed; "
         "correspondence: the real operators (through CPython's own binary-operator / rich-comparison protocol), methods, "
         "cspuz.constraints.cond/then, _elementwise, count_true/fold_or/fold_and/alldifferent on nested arguments, conv2d and "
         "four_neighbors(_indices) are run on generated operands and compared with the extracted Coq model: result trees "
@@ -210,6 +212,35 @@ def gen_cases(ctx):
     for a in arrs0:
         for o in ops:
             cases.append(("bin", o, a, a))                       # same object on both sides
+    # --- valid stream: operands of the sort the operator wants, every shape, several operand trees
+    good_scal = {"bool": [True, False, bvar(6), bvar(7) & bvar(8), ~bvar(9)],
+                 "int": [0, 4, -2, ivar(6), ivar(7) + ivar(8), bvar(6).cond(ivar(9), 1)]}
+    for o in ops:
+        sorts = ("bool",) if o in BOOL_FORMS else ("int",) if o in INT_FORMS else ("bool", "int")
+        for k in sorts:
+            for sh in SHAPES_1D + SHAPES_2D:
+                for v in ((0, 1, 2) if ctx.thorough else (1, 2)):
+                    a = mk_array(k, sh, v)
+                    for s in good_scal[k]:
+                        cases.append(("bin", o, a, s))
+                        cases.append(("bin", o, s, a))
+                    cases.append(("bin", o, a, mk_array(k, sh, (v + 1) % 3)))
+    for sh in SHAPES_1D + SHAPES_2D:
+        for v in (0, 1, 2):
+            c, t, f = mk_array("bool", sh, v), mk_array("int", sh, (v + 1) % 3), mk_array("int", sh, (v + 2) % 3)
+            for cc in [c] + good_scal["bool"]:
+                for tt in [t] + good_scal["int"][:4]:
+                    for ff in [f] + good_scal["int"][2:]:
+                        if is_array(cc) or is_array(tt) or is_array(ff):
+                            cases.append(("cond", cc, tt, ff))
+                            if not is_builtin(cc):
+                                cases.append(("call", "cond", cc, (tt, ff)))
+            for x in [c] + good_scal["bool"]:
+                for y in [mk_array("bool", sh, (v + 1) % 3)] + good_scal["bool"]:
+                    if is_array(x) or is_array(y):
+                        cases.append(("then", x, y))
+                        if not is_builtin(x):
+                            cases.append(("call", "then", x, (y,)))
     # --- shape mismatches (malformed stream)
     nmis = 1500 if ctx.thorough else 400
     for _ in range(nmis):
@@ -712,6 +743,169 @@ def translate_sources():
     return rows
 
 
+# ---- the isinstance predicates and the type-check chain of _elementwise
+
+DCLS = {"BoolExpr": "DBoolExpr", "IntExpr": "DIntExpr", "bool": "DBool", "int": "DInt", "BoolArray1D": "DBoolArray1D",
+        "BoolArray2D": "DBoolArray2D", "IntArray1D": "DIntArray1D", "IntArray2D": "DIntArray2D"}
+LIKE = {"_is_bool_like": "LBoolLike", "_is_int_like": "LIntLike"}
+
+
+def _find_function(tree, name):
+    found = [n for n in tree.body if isinstance(n, ast.FunctionDef) and n.name == name and not _is_overload(n)]
+    if len(found) != 1:
+        raise TranslateError("function %s: %d definitions" % (name, len(found)))
+    return found[0]
+
+
+def _isinstance_classes(node, argname, where):
+    """isinstance(<argname>, C) / isinstance(<argname>, (C1, C2, ...)) -> [dcls]"""
+    if not (isinstance(node, ast.Call) and isinstance(node.func, ast.Name) and node.func.id == "isinstance"
+            and len(node.args) == 2 and not node.keywords and isinstance(node.args[0], ast.Name) and node.args[0].id == argname):
+        raise TranslateError("%s: %s is not an isinstance test of the argument" % (where, ast.unparse(node)))
+    c = node.args[1]
+    elts = c.elts if isinstance(c, ast.Tuple) else [c]
+    out = []
+    for e in elts:
+        if not (isinstance(e, ast.Name) and e.id in DCLS):
+            raise TranslateError("%s: class %s not known to the model" % (where, ast.unparse(e)))
+        out.append(DCLS[e.id])
+    return out
+
+
+def translate_like(tree, name):
+    fn = _find_function(tree, name)
+    where = name
+    if len(fn.args.args) != 1 or fn.args.vararg or fn.args.kwarg or fn.args.defaults:
+        raise TranslateError(where + ": unexpected signature")
+    arg = fn.args.args[0].arg
+    body = _strip(fn.body)
+    if len(body) != 1 or not isinstance(body[0], ast.Return) or body[0].value is None:
+        raise TranslateError(where + ": body is not a single return")
+    v = body[0].value
+    pos, neg = None, []
+    if isinstance(v, ast.BoolOp) and isinstance(v.op, ast.And) and len(v.values) == 2 \
+            and isinstance(v.values[1], ast.UnaryOp) and isinstance(v.values[1].op, ast.Not):
+        pos = _isinstance_classes(v.values[0], arg, where)
+        neg = _isinstance_classes(v.values[1].operand, arg, where)
+    else:
+        pos = _isinstance_classes(v, arg, where)
+    return "{| like_pos := [%s]; like_neg := [%s] |}" % ("; ".join(pos), "; ".join(neg))
+
+
+def _ops_of_test(t, where):
+    """op in [Op.A, ...]  |  op == Op.A"""
+    if isinstance(t, ast.Compare) and isinstance(t.left, ast.Name) and t.left.id == "op" and len(t.ops) == 1:
+        c = t.comparators[0]
+        if isinstance(t.ops[0], ast.In) and isinstance(c, ast.List):
+            return [_op_of(e, where) for e in c.elts]
+        if isinstance(t.ops[0], ast.Eq):
+            return [_op_of(c, where)]
+    raise TranslateError("%s: branch condition %s not understood" % (where, ast.unparse(t)))
+
+
+def _len_ne(t):
+    """len(operands) != N -> N"""
+    if isinstance(t, ast.Compare) and len(t.ops) == 1 and isinstance(t.ops[0], ast.NotEq) and ast.unparse(t.left) == "len(operands)" \
+            and isinstance(t.comparators[0], ast.Constant) and type(t.comparators[0].value) is int:
+        return t.comparators[0].value
+    return None
+
+
+def _pred_on_index(t, where):
+    """P(operands[i]) -> (P, i)"""
+    if isinstance(t, ast.Call) and isinstance(t.func, ast.Name) and t.func.id in LIKE and len(t.args) == 1 and not t.keywords:
+        a = t.args[0]
+        if isinstance(a, ast.Subscript) and isinstance(a.value, ast.Name) and a.value.id == "operands" \
+                and isinstance(a.slice, ast.Constant) and type(a.slice.value) is int:
+            return LIKE[t.func.id], a.slice.value
+    raise TranslateError("%s: %s is not a predicate on operands[i]" % (where, ast.unparse(t)))
+
+
+def _all_map(t):
+    """all(map(P, operands)) -> P"""
+    if isinstance(t, ast.Call) and isinstance(t.func, ast.Name) and t.func.id == "all" and len(t.args) == 1:
+        m = t.args[0]
+        if isinstance(m, ast.Call) and isinstance(m.func, ast.Name) and m.func.id == "map" and len(m.args) == 2 \
+                and isinstance(m.args[0], ast.Name) and m.args[0].id in LIKE and isinstance(m.args[1], ast.Name) and m.args[1].id == "operands":
+            return LIKE[m.args[0].id]
+    return None
+
+
+def _reject_test(t, ops, where):
+    """the condition under which the branch returns NotImplemented -> a tcrow"""
+    opl = "[%s]" % "; ".join(ops)
+    n, rest = None, t
+    if isinstance(t, ast.BoolOp) and isinstance(t.op, ast.Or) and len(t.values) == 2 and _len_ne(t.values[0]) is not None:
+        n, rest = _len_ne(t.values[0]), t.values[1]
+    if not (isinstance(rest, ast.UnaryOp) and isinstance(rest.op, ast.Not)):
+        raise TranslateError("%s: %s not understood" % (where, ast.unparse(t)))
+    inner = rest.operand
+    p = _all_map(inner)
+    if p is not None:
+        return "TCAll %s %s %s" % (opl, "None" if n is None else "(Some %d%%nat)" % n, p)
+    parts = inner.values if (isinstance(inner, ast.BoolOp) and isinstance(inner.op, ast.And)) else [inner]
+    preds = [_pred_on_index(x, where) for x in parts]
+    if n is None or [i for (_, i) in preds] != list(range(n)):
+        raise TranslateError("%s: %s does not test operands[0..n-1] in order with the length check" % (where, ast.unparse(t)))
+    return "TCEach %s [%s]" % (opl, "; ".join(pn for (pn, _) in preds))
+
+
+def translate_elementwise_chain(tree):
+    fn = _find_function(tree, "_elementwise")
+    if [a.arg for a in fn.args.args] != ["op", "shape", "operands"]:
+        raise TranslateError("_elementwise: unexpected signature")
+    body = _strip(fn.body)
+    node = body[0]
+    rows = []
+    while True:
+        if not isinstance(node, ast.If):
+            raise TranslateError("_elementwise: type-check chain not found")
+        where = "_elementwise branch %d" % len(rows)
+        ops = _ops_of_test(node.test, where)
+        if len(node.body) != 1 or not isinstance(node.body[0], ast.If) or node.body[0].orelse:
+            raise TranslateError(where + ": branch body is not a single if")
+        inner = node.body[0]
+        if len(inner.body) != 1 or not (isinstance(inner.body[0], ast.Return) and isinstance(inner.body[0].value, ast.Name)
+                                        and inner.body[0].value.id == "NotImplemented"):
+            raise TranslateError(where + ": branch does not return NotImplemented")
+        rows.append(_reject_test(inner.test, ops, where))
+        if len(node.orelse) == 1 and isinstance(node.orelse[0], ast.If):
+            node = node.orelse[0]
+            continue
+        if len(node.orelse) == 1 and isinstance(node.orelse[0], ast.Raise) and isinstance(node.orelse[0].exc, ast.Call) \
+                and isinstance(node.orelse[0].exc.func, ast.Name) and node.orelse[0].exc.func.id == "ValueError":
+            break
+        raise TranslateError("_elementwise: the chain does not end with raise ValueError")
+    return rows
+
+
+def translate_op_list(tree, name):
+    fn = _find_function(tree, name)
+    body = _strip(fn.body)
+    if len(body) == 1 and isinstance(body[0], ast.Return):
+        t = body[0].value
+        if isinstance(t, ast.Compare) and isinstance(t.left, ast.Name) and t.left.id == "op" and len(t.ops) == 1 \
+                and isinstance(t.ops[0], ast.In) and isinstance(t.comparators[0], ast.List):
+            return [_op_of(e, name) for e in t.comparators[0].elts]
+    raise TranslateError(name + ": body not understood")
+
+
+def translate_tables():
+    with open(os.path.join(vlib.REPO, "cspuz", "array.py")) as f:
+        atree = ast.parse(f.read())
+    with open(os.path.join(vlib.REPO, "cspuz", "expr.py")) as f:
+        etree = ast.parse(f.read())
+    out = []
+    out.append("Definition gen_is_bool_like : likedef := %s." % translate_like(atree, "_is_bool_like"))
+    out.append("Definition gen_is_int_like : likedef := %s." % translate_like(atree, "_is_int_like"))
+    out.append("Definition gen_is_bool_expr_like : likedef := %s." % translate_like(etree, "_is_bool_expr_like"))
+    out.append("Definition gen_is_int_expr_like : likedef := %s." % translate_like(etree, "_is_int_expr_like"))
+    out.append("Definition gen_elem_table : list tcrow :=\n  [ %s ]." % ";\n    ".join(translate_elementwise_chain(atree)))
+    out.append("Definition gen_bool_ops : list op := [%s]." % "; ".join(translate_op_list(etree, "is_bool_op")))
+    out.append("Definition gen_int_ops : list op := [%s]." % "; ".join(translate_op_list(etree, "is_int_op")))
+    return "\n".join(out) + "\n"
+
+
 def render_table(rows):
     lines = ["(* GENERATED by harness/pC12.py::translate from /repo/cspuz/expr.py and array.py — do not edit *)",
              "From Coq Require Import ZArith List.",
@@ -722,7 +916,7 @@ def render_table(rows):
              "  ["]
     lines.append(";\n".join("    (C%s, %s, %s)" % (c, MNAMES[m], b) for (c, m, b) in rows))
     lines.append("  ].")
-    return "\n".join(lines) + "\n"
+    return "\n".join(lines) + "\n" + translate_tables()
 
 
 def translate(ctx):
